@@ -168,4 +168,16 @@ theorem tie_saltToken : saltTokenText =
     "{ parts := strings.Split(token, \"/\") if len(parts) < 3 || parts[0] != \"v2\" { if reObsoleteToken.MatchString(token) { return \"\", ErrObsoleteToken } return \"\", ErrTokenFormat } uuid := parts[1] secret := parts[2] if len(secret) != 40 { hmac := hmac.New(sha1.New, []byte(secret)) io.WriteString(hmac, remote) secret = fmt.Sprintf(\"%x\", hmac.Sum(nil)) return \"v2/\" + uuid + \"/\" + secret, nil } else if strings.HasPrefix(uuid, remote) { return token, nil } else { return \"\", ErrSalted } }" := rfl
 theorem tie_reObsoleteToken : reObsoleteToken = "^[0-9a-z]{41,}$" := rfl
 
+/-- `Model.C07.RemoteReply` / `remoteRequests`: which answers of a remote Keep service keepclient's
+`getOrHead` tries again (`Temporary()`), which count as "not found", which end the Get with another
+error (the size-hint check) -/
+theorem tie_kcGetConds : kcGetConds =
+    ["if strings.HasPrefix(locator, \"d41d8cd98f00b204e9800998ecf8427e+0\")", "if len(parts) < 2", "if err != nil",
+     "for triesRemaining > 0", "if err != nil", "if req.Header.Get(\"Authorization\") == \"\"",
+     "if req.Header.Get(\"X-Request-Id\") == \"\"", "if err != nil", "if resp.StatusCode != http.StatusOK",
+     "if resp.StatusCode == 408 || resp.StatusCode == 429 || resp.StatusCode >= 500", "if resp.StatusCode == 404",
+     "if expectLength < 0", "if resp.ContentLength < 0",
+     "if resp.ContentLength >= 0 && expectLength != resp.ContentLength", "if method == \"GET\"",
+     "if count404 == numServers"] := rfl
+
 end ArvVerif.Tie.C07
